@@ -31,7 +31,7 @@ type OpeningSet struct {
 	LamSeed uint64      `json:"lambda_seed"`
 }
 
-var polyKinds = []string{"zero", "const", "unit", "sparse", "max", "lowdeg", "random", "random", "random"}
+var polyKinds = []string{"zero", "const", "unit", "sparse", "max", "lowdeg", "random", "random", "random", "u64", "limbedge", "small", "limbedge"}
 var zPatterns = []string{"allequal", "alldistinct", "twofar", "random", "clustered", "everyindex", "random"}
 
 func genLabel(r *Rng) string {
@@ -140,6 +140,55 @@ func genPoly(sp PolySpec) []*big.Int {
 			v := new(big.Int).Mul(a, big.NewInt(int64(i)))
 			v.Add(v, b)
 			f[i] = v.Mod(v, refmodel.R)
+		}
+	case "u64":
+		// values that fit one or two 64-bit limbs: the upper limbs are zero
+		for i := range f {
+			v := new(big.Int).SetUint64(r.U64())
+			if r.Chance(30) {
+				v.Lsh(v, 64).Or(v, new(big.Int).SetUint64(r.U64()))
+			}
+			if r.Chance(40) {
+				v.SetInt64(0)
+			}
+			f[i] = v
+		}
+	case "small":
+		for i := range f {
+			f[i] = big.NewInt(int64(r.Intn(256)))
+		}
+	case "limbedge":
+		// limb and window boundaries of the scalar representation: all-ones limbs, a set top
+		// bit/byte/16-bit window below an empty limb, values just above and below 2^64k
+		edge := func() *big.Int {
+			k := uint(64 * (1 + r.Intn(3)))
+			switch r.Intn(9) {
+			case 0:
+				return new(big.Int).Sub(new(big.Int).Lsh(bigOne, k), bigOne) // 2^64k - 1
+			case 1:
+				return new(big.Int).Lsh(bigOne, k) // 2^64k
+			case 2:
+				return new(big.Int).Sub(new(big.Int).Lsh(bigOne, k+1), bigOne) // 2^(64k+1) - 1
+			case 3:
+				return new(big.Int).Lsh(big.NewInt(0x81), k-8) // top byte of a limb just above half
+			case 4:
+				return new(big.Int).Lsh(big.NewInt(0xffff), k-16)
+			case 5:
+				return new(big.Int).Lsh(big.NewInt(0x8001), k-16)
+			case 6:
+				v := new(big.Int).Lsh(big.NewInt(0x8000), k-16)
+				return v.Or(v, new(big.Int).SetUint64(r.U64()>>20))
+			case 7:
+				v := new(big.Int).Lsh(bigOne, k+uint(r.Intn(60)))
+				return v.Sub(v, big.NewInt(int64(1+r.Intn(3))))
+			}
+			v := new(big.Int).Lsh(new(big.Int).SetUint64(r.U64()), k-64)
+			return v.Or(v, new(big.Int).Sub(new(big.Int).Lsh(bigOne, k-64), bigOne))
+		}
+		for i := range f {
+			if i < 8 || r.Chance(25) {
+				f[i] = new(big.Int).Mod(edge(), refmodel.R)
+			}
 		}
 	default:
 		for i := range f {
@@ -330,9 +379,14 @@ func shrinkSim(c SimCfg) []SimCfg {
 		q.Policy = "fifo"
 		out = append(out, q)
 	}
-	if c.PoolBuggy || c.MapShuffle {
+	if c.MapShuffle {
 		q := c
-		q.PoolBuggy, q.MapShuffle = false, false
+		q.MapShuffle = false
+		out = append(out, q)
+	}
+	if c.PoolMode != 1 {
+		q := c
+		q.PoolMode = 1
 		out = append(out, q)
 	}
 	return out
